@@ -281,6 +281,7 @@ def harnesses(tier):
         {'name': 'algebra-depth3-sub', 'fn': h_algebra, 'cfg': {'depth': 3, 'leaves': ['D', 'N1'], 'ops': ['-', '*'], 'days': [1, 2]}},
         {'name': 'algebra-depth1-all', 'fn': h_algebra, 'cfg': {'depth': 1, 'leaves': ALL_LEAVES, 'ops': OPS, 'days': [0, 1, 2, 3, 4]}},
         {'name': 'validation', 'fn': h_validation, 'cfg': {}},
-        {'name': 'search-depth2', 'fn': h_search, 'cfg': {'depth': 2, 'leaves': ['W', 'Wse', 'D', 'Fse', 'N0', 'N1'], 'ops': ['+', '-', '|'],
-                                                         'days': [0, 4], 'horizon': 10}},
+        {'name': 'search-depth1-all', 'fn': h_search, 'cfg': {'depth': 1, 'leaves': ['W', 'Ws', 'We', 'Wse', 'D', 'F', 'Fse', 'N0', 'N1'],
+                                                             'ops': ['+', '-', '|', '*'], 'days': [0, 2, 4], 'horizon': 10}},
+        {'name': 'search-depth2', 'fn': h_search, 'cfg': {'depth': 2, 'leaves': ['We', 'D', 'N0'], 'ops': ['-', '|'], 'days': [3], 'horizon': 8}},
     ]
